@@ -64,9 +64,9 @@ CLAIMED["C10"] = dict(
     text="Proof: validate (both token types) == the well-formedness predicate (defined issuer, the other required principal, nonce >= 12 bytes); constructors New/Root return exactly the object validate accepted "
          "(options are arbitrary functions that may assign any token field); tokenFromModel (both) additionally establishes a valid command (command.Parse), time bounds within +/-(2^53-1) (OptionalTimestamp), "
          "argument / policy integers in bounds (ValidateIntegerBoundsIPLD, verified recursively over the abstract node structure with iterator invariants and a termination measure; Args.Validate with a map-coverage invariant); "
-         "literal.Any stores every Go integer exactly or rejects it (fast path), Args.Add stores exactly Any(val), rejects duplicates and leaves the Args unchanged on error; decoders accept only the two-entry signed part under the requested tag (C06 contracts).",
+         "literal.Any stores every Go integer exactly or rejects it (fast path: verified against storedExactly; reflection path anyAssemble: verified with `exactconv` — every integer conversion preserves the mathematical value, so an unsigned value beyond 2^53-1 is refused before it is narrowed), Args.Add stores exactly Any(val), rejects duplicates and leaves the Args unchanged on error; decoders accept only the two-entry signed part under the requested tag (C06 contracts).",
     note="Assumed: bindnode schema strictness (unknown, missing or wrongly typed payload fields are rejected by AssignNode against the embedded .ipldsch) — a dependency behaviour contracts cannot decide here; "
-         "the reflection-based slow path of literal.Any (anyAssemble) is abstracted; policy.FromIPLD is used through a trusted contract (its shape is C14).",
+         "the reflection-based slow path of literal.Any (anyAssemble) is verified for its integer conversions and its non-nil result only: what the quick-build assemblers (qp.*) then write, and reflect itself, are assumed contracts; its recursion is assumed to terminate (`decreases _`) and panicking is its interface (`maypanic`; Any recovers); policy.FromIPLD is proved under C14.",
     design="DESIGN.md §3 C10")
 for pid in []:
     NOT_APPLICABLE[pid] = "contracts for this property are not registered yet in this tree (work in progress; see DESIGN.md §6 staging)"
